@@ -226,18 +226,35 @@ func (c *ShipConnection) endHandshakeWithError(err error) {
 }
 
 // set the handshake timer to a new duration and start the channel
+//
+// every armed timer gets its own stop channel, which also identifies it: a timer that
+// has been stopped or replaced in the meantime must not report a timeout anymore
 func (c *ShipConnection) setHandshakeTimer(timerType timeoutTimerType, duration time.Duration) {
-	c.stopHandshakeTimer()
+	stopChan := make(chan struct{})
 
-	c.setHandshakeTimerRunning(true)
-	c.setHandshakeTimerType(timerType)
+	c.handshakeTimerMux.Lock()
+	if c.handshakeTimerRunning {
+		close(c.handshakeTimerStopChan)
+	}
+	c.handshakeTimerStopChan = stopChan
+	c.handshakeTimerRunning = true
+	c.handshakeTimerType = timerType
+	c.handshakeTimerMux.Unlock()
 
 	go func() {
 		select {
-		case <-c.handshakeTimerStopChan:
+		case <-stopChan:
 			return
 		case <-time.After(duration):
-			c.setHandshakeTimerRunning(false)
+			c.handshakeTimerMux.Lock()
+			if !c.handshakeTimerRunning || c.handshakeTimerStopChan != stopChan {
+				// stopped or replaced while expiring
+				c.handshakeTimerMux.Unlock()
+				return
+			}
+			c.handshakeTimerRunning = false
+			c.handshakeTimerMux.Unlock()
+
 			c.handleState(true, nil)
 			return
 		}
@@ -246,15 +263,15 @@ func (c *ShipConnection) setHandshakeTimer(timerType timeoutTimerType, duration 
 
 // stop the handshake timer and close the channel
 func (c *ShipConnection) stopHandshakeTimer() {
-	if !c.getHandshakeTimerRunning() {
+	c.handshakeTimerMux.Lock()
+	defer c.handshakeTimerMux.Unlock()
+
+	if !c.handshakeTimerRunning {
 		return
 	}
 
-	select {
-	case c.handshakeTimerStopChan <- struct{}{}:
-	default:
-	}
-	c.setHandshakeTimerRunning(false)
+	close(c.handshakeTimerStopChan)
+	c.handshakeTimerRunning = false
 }
 
 func (c *ShipConnection) setHandshakeTimerRunning(value bool) {
